@@ -247,6 +247,23 @@ def boundC04 (cap : Nat) : Trace → Bool
   | _ :: rest => boundC04 cap rest
   | [] => true
 
+/-- Single-threaded cache: excess (which only an update that made an entry heavier can
+create) is worked off by every lookup that follows: after a `get` / `contains_key` issued
+over capacity the residents are within capacity again, or a full eviction batch has left. -/
+def workedOffC04 (cap batch : Nat) : Trace → Bool
+  | (.snap, .snap before) :: (op, ob) :: (.snap, .snap after) :: rest =>
+    (let lookup := match op with
+       | .has _ => true
+       | .get _ => true
+       | _ => false
+     !(lookup && decide (snapWeight before > cap)) || decide (snapWeight after ≤ cap) ||
+       decide (after.entries.length + batch ≤ before.entries.length)) &&
+    (match ob with
+     | .panic _ => true
+     | _ => workedOffC04 cap batch ((.snap, .snap after) :: rest))
+  | _ :: rest => workedOffC04 cap batch rest
+  | [] => true
+
 /-- `boundC04Sync` with the number `n` of `insert` calls seen so far (an upper bound of the
 number of entries the map holds). -/
 def boundC04SyncGo (cap : Nat) : Nat → Trace → Bool
@@ -279,7 +296,7 @@ def boundC04Sync (cap : Nat) (t : Trace) : Bool := boundC04SyncGo cap 0 t
 def oracleC04 (kind : Kind) (cap : Option Nat) (t : Trace) : Bool :=
   match cap, kind with
   | none, _ => true
-  | some c, .unsync => boundC04 c t
+  | some c, .unsync => boundC04 c t && workedOffC04 c Gen.UNSYNC_EVICTION_BATCH_SIZE t
   | some c, .sync => boundC04Sync c t
 
 /-! ### C03: no spurious loss -/
